@@ -6,18 +6,18 @@ rows = []
 for f in sorted(glob.glob(os.path.join(base, "seeded", "*", "meta.json"))):
     m = json.load(open(f))
     needs = " ".join(m.get("needs_to_manifest", "").split())[:230]
-    det = ", ".join(m.get("detected_by") or []) or "NOT DETECTED"
+    det = ", ".join(m.get("detected_by") or []) or ("not reported - assessed as not observable (see text)" if m.get("assessment") else "NOT DETECTED")
     first = ""
     for p, v in (m.get("first_violation_lines") or {}).items():
-        if v:
+        if v and p in (m.get("detected_by") or []):
             mm = re.search(r"oracle=(\S+) key=(\S+)", v[0])
             if mm:
                 first = "%s/%s" % (mm.group(1), mm.group(2))
             break
     rows.append("| %s | %s | %s | %s | %s |" % (m["name"], m["property"], needs.replace("|", "/"), det, first.replace("|", "/")))
 table = "| change | property | what it needs to manifest (agent's words, abridged) | caught by (quick tier) | first oracle/key |\n|---|---|---|---|---|\n" + "\n".join(rows)
-n_det = sum(1 for r in rows if "NOT DETECTED" not in r)
-table += "\n\n%d of %d confirmed changes are caught by the quick tier of the property they were written against.\n" % (n_det, len(rows))
+n_det = sum(1 for r in rows if "NOT DETECTED" not in r and "not reported" not in r)
+table += "\n\n%d of %d confirmed changes are caught by the quick tier (of the property they were written against or of the one named).\n" % (n_det, len(rows))
 p = os.path.join(base, "DESIGN.md")
 s = open(p).read()
 s = re.sub(r"<!-- SEEDED-TABLE-BEGIN -->.*<!-- SEEDED-TABLE-END -->", "<!-- SEEDED-TABLE-BEGIN -->\n" + table + "<!-- SEEDED-TABLE-END -->", s, flags=re.S)
